@@ -322,7 +322,7 @@ class Spec(PropSpec):
         "c13_index_coherent quantifies over every syscall sequence with arbitrary arguments and every inbound packet sequence (kreach)",
         "c13_connect_iff is the decision taken when the SYN / the reply is processed; reachability of the listener's host is the wire's business (the harness is the wire)",
         "c13_owned / c13_accept_once are stated on `ostep` (one host's kernel with the fds its application holds) and carried to histories of the whole world model (hosts + wire + handle table, the model the correspondence runs) by the proved simulation c13_world_projects; a handle is never created in an occupied slot (harness and model refuse it), a panicking accept is not a step; wakers are not modelled",
-        "sequence numbers: the theorems are stated on unbounded naturals (side condition: every live sequence distance - in flight, window, send/receive buffer - stays below 2^31; that the code's wrapping_sub/wrapping_add/== then agree with them is PROVED for handle_established, segment_one and segment_all's filter by tcb_on_seg_wrap, seg_step_wrap, transmittable_wrap (coq/NetTcp/Wrap.v, WrapTcb.v, checked with C16; tight: wrap_tight), the remaining sites - handshake equalities, probe sequence - by the site lemmas of Wrap.v; caps and windows are at most 65535/70000); the model's wire encoding is mod 2^32 and the deterministic `wrap` family of C06 (ISN = 2^32-k on both hosts via verif hook 71a27bd, k in {1,100,1460,5000}, both roles, both directions, with and without loss) checks model/implementation correspondence and the byte-stream oracle across the wrap", "ephemeral-port wrap-around (16384 connects) is not exercised",
+        "sequence numbers: the theorems are stated on unbounded naturals (side condition: every live sequence distance - in flight, window, send/receive buffer - stays below 2^31; that the code's wrapping_sub/wrapping_add/== then agree with them is PROVED for the whole inbound per-connection handler (handshake states + handle_established), the TCB literals of connect / accept_syn, segment_one and segment_all's filter by tcb_on_conn_wrap, tcb_on_seg_wrap, fresh_tcb_wrap, seg_step_wrap, transmittable_wrap (coq/NetTcp/Wrap.v, WrapTcb.v, checked with C16; tight: wrap_tight), the remaining sites - handshake equalities, probe sequence - by the site lemmas of Wrap.v; caps and windows are at most 65535/70000); the model's wire encoding is mod 2^32 and the deterministic `wrap` family of C06 (ISN = 2^32-k on both hosts via verif hook 71a27bd, k in {1,100,1460,5000}, both roles, both directions, with and without loss) checks model/implementation correspondence and the byte-stream oracle across the wrap", "ephemeral-port wrap-around (16384 connects) is not exercised",
     ]
     partial_note = ("c13_reclaimed_partial: proved are the reap post-condition of every egress pass, immediate removal on close of "
                     "sockets without a live connection, linger/RST on close of open ones, and the strictly decreasing retransmit "
